@@ -355,6 +355,10 @@ class Interp:
                 return
             if last == "validate" and isinstance(v.func, ast.Attribute) and isinstance(v.func.value, ast.Name) and f"vs:{v.func.value.id}" in st:
                 st["errvar"] = var
+                # with which strictness was this pass made? (the first pass on a path is the one that judges the document)
+                sk = next((ast.unparse(k.value) for k in v.keywords if k.arg == "strict"), ast.unparse(v.args[1]) if len(v.args) > 1 else "False")
+                st["sv:cur"] = sk
+                st.setdefault("sv:first", sk)
                 st[f"nn:{var}"] = "NN"
                 ss = None
                 for k in v.keywords:
